@@ -183,7 +183,11 @@ fn run(c: &mut Case) {
                     c.count("reader_middoc_pairs");
                     let starts_ok = p.items.len() >= tail.len() && p.items[..tail.len()].iter().zip(tail.iter()).all(|((it, _), id)| it.is_start() && it.id() == *id);
                     let emitted = p.items.iter().skip(tail.len()).any(|(it, _)| it.id() == e.id && !it.is_end());
-                    if !(starts_ok && emitted) {
+                    if !starts_ok {
+                        // whether a reader accepts a stream that does not start at a root element at all is not C11's
+                        // subject (C06 speaks about it): nothing to judge
+                        c.count("vacuous_middoc_start_not_accepted");
+                    } else if !emitted {
                         c.violation(
                             format!("C11/reader/mid-document/closer-rejected/{}/{}", if e.is_root() { "root" } else if spec.get(chain[j]).map(|x| x.path == e.path).unwrap_or(false) { "sibling" } else { "ancestor" }, match &p.end { Ev::Err(er) => er.kind(), _ => "none" }),
                             format!("stream starting mid-document with unknown-size masters {:x?} followed by {} (which ends them all): the element was not emitted; parse ended with {}", tail, spec.path_str(e), p.end.short()),
